@@ -516,7 +516,8 @@ func (r *c02Ref) decodeBlock(b []byte, maxStr int) c02Result {
 		return res
 	}
 	tooLong := func(n int) bool { return maxStr != 0 && n > maxStr }
-	for off, nrepr := 0, 0; off < len(b); nrepr++ {
+	seenField := false // a header field representation precedes (RFC 7541 4.2: updates come first)
+	for off := 0; off < len(b); {
 		sp := c02ScanOne(b, off)
 		res.Spans = append(res.Spans, sp)
 		if !sp.Complete {
@@ -540,8 +541,8 @@ func (r *c02Ref) decodeBlock(b []byte, maxStr int) c02Result {
 			}
 			res.Fields = append(res.Fields, c02Field{Name: f.Name, Value: f.Value})
 		case c02Update:
-			if nrepr > 0 {
-				res.may("size update not at the very start of the block")
+			if seenField {
+				res.may("size update after a header field representation")
 			}
 			if sp.IntSat || sp.Int > r.allowed {
 				return fail("update", fmt.Sprintf("table size update %d above the allowed maximum %d", sp.Int, r.allowed), sp)
@@ -590,6 +591,9 @@ func (r *c02Ref) decodeBlock(b []byte, maxStr int) c02Result {
 				r.add(f)
 			}
 			res.Fields = append(res.Fields, f)
+		}
+		if sp.Kind != c02Update {
+			seenField = true
 		}
 		off = sp.End
 		res.Consumed = off
